@@ -76,7 +76,8 @@ Erase(h)   == <<<<"cr", 0>>, <<"el2", 0>>>> \o [i \in 1..(2 * ((IF h = 0 THEN 1 
 Restore(h) == <<<<"cr", 0>>>> \o [i \in 1..(2 * h) |-> IF i % 2 = 1 THEN <<"cuu", 1>> ELSE <<"el2", 0>>]
 \* lines of text, each followed by a newline
 RECURSIVE LinesNl(_)
-LinesNl(ids) == IF ids = <<>> THEN <<>> ELSE <<<<"t", Head(ids)>>, <<"nl", 0>>>> \o LinesNl(Tail(ids))
+LinesNl(ids) == IF ids = <<>> THEN <<>>
+                ELSE <<IF Head(ids) = 0 THEN <<"sp", 0>> ELSE <<"t", Head(ids)>>, <<"nl", 0>>>> \o LinesNl(Tail(ids))   \* 0: a blank line (print())
 \* a frame: rows separated by newlines, none after the last; a blank row (0) writes nothing visible
 RECURSIVE FrameOps(_)
 FrameOps(rows) == IF rows = <<>> THEN <<>>
